@@ -155,14 +155,15 @@ pub fn resource_stop_on_replay(f: &ParserFactory, g: &GCase, hist: &[u32]) -> bo
     let r = std::panic::catch_unwind(std::panic::AssertUnwindSafe(|| {
         let Ok(mut p) = parser(f, g) else { return false };
         p.start_without_prompt();
-        let res = |p: &TokenParser| matches!(p.stop_reason(), LexerTooComplex | ParserTooComplex | MaxTokensTotal | MaxTokensParser);
         for &t in hist {
             if p.consume_token(t).is_err() {
-                return res(&p);
+                // apply_token labels every failing commit ParserTooComplex: only the parser-level error
+                // (item limit, lexer fuel / state limit) or the token budget identifies a resource stop
+                return p.parser.get_error().is_some() || matches!(p.stop_reason(), MaxTokensTotal | MaxTokensParser);
             }
         }
         let _ = p.compute_mask();
-        res(&p)
+        p.parser.get_error().is_some() || matches!(p.stop_reason(), LexerTooComplex | ParserTooComplex | MaxTokensTotal | MaxTokensParser)
     }));
     r.unwrap_or(false)
 }
